@@ -757,7 +757,7 @@ func (g *FuncGen) trField(env *Env, x *EField) Val {
 		if f == nil {
 			g.unsup("no field %s in %s (stale-contract?)", x.Name, t)
 		}
-		return Val{T: fmt.Sprintf("(%s!%s %s)", name, sanitize(f.Name()), base.T), S: c.sortOf(f.Type()), GT: f.Type()}
+		return Val{T: fmt.Sprintf("(%s!%s %s)", name, fieldName(f), base.T), S: c.sortOf(f.Type()), GT: f.Type()}
 	}
 	g.unsup("field access .%s on %s", x.Name, t)
 	return Val{}
